@@ -17,6 +17,7 @@ import (
 	"sort"
 	"strings"
 	"sync"
+	"sync/atomic"
 	"time"
 
 	"golang.org/x/tools/go/packages"
@@ -94,6 +95,7 @@ type UnitJSON struct {
 	FuzzTest   string         `json:"fuzz_test,omitempty"`
 }
 
+var slowFails int32
 var caseFn, coverFns string
 var skipRe *regexp.Regexp
 
@@ -317,6 +319,18 @@ func main() {
 			defer wg.Done()
 			sem <- struct{}{}
 			defer func() { <-sem }()
+			if atomic.LoadInt32(&slowFails) >= 6 {
+				// the unit has failed already; six obligations that ran into the time limit are reported, the
+				// remaining ones are not attempted (this bounds the time a failing unit takes; a unit that holds
+				// is never affected)
+				o.Res = Result{Status: "not-attempted", Solver: "none", Model: "not attempted: six obligations of this unit already ran into the time limit"}
+				return
+			}
+			defer func() {
+				if o.Res.Status == "timeout" || o.Res.Status == "unknown" {
+					atomic.AddInt32(&slowFails, 1)
+				}
+			}()
 			as := append(append([]*Term{}, o.PC...), Not(o.Goal))
 			script := Script(as, false)
 			if *keep != "" {
@@ -351,7 +365,7 @@ func main() {
 	if !*noReplay {
 		nconc := 0
 		for _, o := range e.obls {
-			if o.Res.Status != "unsat" && o.Res.Status != "assumed" {
+			if o.Res.Status != "unsat" && o.Res.Status != "assumed" && o.Res.Status != "not-attempted" {
 				nconc++
 				if nconc > 4 {
 					o.ReplayNote = "model not concretised (more than 4 failed obligations in this unit)"
